@@ -30,6 +30,7 @@ func runC15(rc *RunCtx) {
 	rc.NewMintWorld(ln, MintOpts{Fee: fee})
 	m := NewMW(rc, "A")
 	m.Fees = map[string][]uint64{"A": {uint64(fee), 100}}
+	m.Locks = true
 	rc.Quietly(func() { m.User.Fund("A", 255); m.User.Fund("A", 100) })
 	conc := rc.P("conc", -1)
 	// weights:       fund swap melt resolve replay dup race checkstate restore restart clock adv internal rotate
